@@ -222,3 +222,9 @@ PROP["rule"] += ("; session restarts: a target's session is cut (R: error status
                  "receive loop manager.handleUpdates on a scripted stream, in run mode agent through manager.Manager and a "
                  "scripted multi-session gNMI server; exhaustive scope: every subscription point across a restart, both kinds; "
                  "corpus/C01/clean_eof_then_smaller_state.ops")
+# --- round 2 (builder bVALEQ): the suppression test behind ExactStream is Go's value.Equal (Props/C19ValueEq.lean)
+PROP["modules"].append("Gnmi.Props.C19ValueEq")
+PROP["theorems"] += ["Gnmi.C19.valueEqual_eq_equal", "Gnmi.C19.valueEqual_sound", "Gnmi.C19.valueEqual_sound_exact"]
+PROP["manifest"]["level_text"] += (
+    " The value test behind ExactStream (Cache.valueEqual) is the C19 model of value.Equal on every value the cache model holds "
+    "(valueEqual_eq_equal), and a suppressed update carries the same value up to the sign of a floating-point zero (valueEqual_sound).")
